@@ -405,7 +405,7 @@ func (ex *Exec) callContract(fr *Frame, c *Contract, callee *ssa.Function, args,
 	for _, r := range c.Requires {
 		g := env.boolTerm(r.Expr)
 		props := r.Props
-		ex.oblige(st, "pre@"+strings.TrimPrefix(c.Key, c.Kind+" "), r.Label, mergeProps(props, ex.safetyProps(fr)[1:]), g, pos, fnKeyOf(fr.fn))
+		ex.oblige(st, "pre@"+strings.TrimPrefix(c.Key, c.Kind+" "), r.Label, mergeProps(props, ex.safetyProps(fr)[1:]), g, pos, ex.fnKey)
 		st.assume(g)
 	}
 	pre := st.clone()
